@@ -52,7 +52,7 @@ func (c *counter) snapshot() map[string]int64 {
 	return r
 }
 
-// Five TLC runs and their replays go on concurrently; each gets a share of the cores (share = 1/div).
+// share of the cores (env.Workers, at most the CPUs present) for TLC workers resp. replay workers
 func share(env *common.Env, div, min int) int {
 	w := env.Workers
 	if w > runtime.NumCPU() {
@@ -63,6 +63,15 @@ func share(env *common.Env, div, min int) int {
 		w = min
 	}
 	return w
+}
+
+// A TLC run that times out makes the check inconclusive; the limit is generous because the box is shared
+// (measured: quick needs about 7 CPU-minutes in total, thorough about 2.5 times that).
+func tlcTimeout(env *common.Env) time.Duration {
+	if env.Thorough() {
+		return 40 * time.Minute
+	}
+	return 20 * time.Minute
 }
 
 func main() {
@@ -78,19 +87,30 @@ func main() {
 		replayOne(env)
 		return
 	}
-	var g *genStats
-	var it *iterStats
-	var both sync.WaitGroup
-	both.Add(2)
-	go func() { defer both.Done(); g = runGen(env, rep) }()
-	go func() { defer both.Done(); it = runIter(env, rep) }()
-	both.Wait()
+	// development aid for trying the check on mutated copies of the tree: C05_ONLY=gen|iter runs one half only
+	// (never against /repo, whose evidence must come from complete runs)
+	only := os.Getenv("C05_ONLY")
+	if only != "" && (env.Repo == "/repo" || (only != "gen" && only != "iter")) {
+		common.Inconclusive("property=C05 C05_ONLY=%q is only for runs against a scratch copy (VERIF_REPO) and must be gen or iter", only)
+	}
+	g := &genStats{byPreOut: newCounter(), byBody: newCounter()}
+	it := &iterStats{byCons: newCounter(), byProd: newCounter(), byOut: newCounter()}
+	if only != "iter" {
+		g = runGen(env, rep)
+	}
+	if only != "gen" {
+		it = runIter(env, rep)
+	}
+	if only != "" {
+		fmt.Printf("PARTIAL RUN (C05_ONLY=%s): only that half of the check was run\n", only)
+		rep.Extra["partial_run"] = only
+	}
 	rep.Evaluations = g.calls + it.cases
 	rep.Distinct = g.distinctNontrivial + it.cases
 	rep.Traces = g.behaviours + it.cases
 	rep.Exhaustive = false // the exhaustive parts are named below; the 3-instance histories are a seeded sample
-	rep.Extra["exhaustive_parts"] = []string{"gen_lock.cfg", "gen_micro.cfg", "gen_quick.cfg / gen_thorough.cfg (all template pairs x all histories of the tier's length)", "iter_quick.cfg / iter_thorough.cfg (full consumer x producer x items x ending product)"}
-	rep.Extra["sampled_parts"] = []string{"gen_sim3.cfg (TLC -simulate, seed = VERIF_SEED)"}
+	rep.Extra["exhaustive_parts"] = []string{"gen_design.cfg / gen_design_t.cfg", "gen_quick.cfg / gen_thorough.cfg (all pairs of the tier's templates x all histories of 4 calls)", "iter_quick.cfg / iter_thorough.cfg (full consumer x producer x items x ending product)"}
+	rep.Extra["sampled_parts"] = []string{"gen_sim3.cfg, thorough also gen_sim2.cfg (TLC -simulate, seed = VERIF_SEED)"}
 	rep.Extra["gen_behaviours"] = g.behaviours
 	rep.Extra["gen_behaviours_distinct"] = g.distinct
 	rep.Extra["gen_calls_compared"] = g.calls
@@ -106,7 +126,7 @@ func main() {
 	rep.Extra["divergent_iter_cases"] = it.divergent
 	// vacuity: every status-before x outcome class the clauses talk about must have occurred
 	for _, need := range []string{"created/yield", "created/exc:TypeError", "suspended/yield", "suspended/stop", "suspended/exc:KeyError", "done-ret/stop", "done-exc/stop"} {
-		if g.byPreOut.snapshot()[need] == 0 {
+		if only != "iter" && g.byPreOut.snapshot()[need] == 0 {
 			common.Inconclusive("property=C05 vacuous run: no call of class %s was generated", need)
 		}
 	}
